@@ -294,6 +294,10 @@ fn sequences() -> Vec<String> {
         "e = [\n  1, // one\n  // before two\n  2,\n  // last\n]",
         "g = if a > 1 then \"big\" else \"small\"",
         "h = a + b // trailing",
+        // multi-byte characters before a gap (byte offsets and character offsets differ from here on)
+        "s = \"\u{e9}\"",
+        "// caf\u{e9} \u{20ac}",
+        "u = \"\u{1f600}\" // \u{e9}",
     ];
     let mut out = vec![];
     for (i, s1) in stmts.iter().enumerate() {
